@@ -158,9 +158,85 @@ class FnTr:
         for x in sorted((x for x in ast.walk(fn) if isinstance(x, ast.Name)), key=lambda x: (x.lineno, x.col_offset)):
             if ident(x.id) not in self.order:
                 self.order.append(ident(x.id))
+        self.find_abstracted()
+
+    # ---------- opaque-object lookups replaced by parameters ----------
+    @staticmethod
+    def opaque_chain(e):
+        """`root.a.b().c().get(<name>)`: a call of `.get` with one argument (a name or a string literal) on a chain of
+        at least one attribute access / argument-less call rooted at a plain name.  Returns (root, key) or None."""
+        if not (isinstance(e, ast.Call) and isinstance(e.func, ast.Attribute) and e.func.attr == 'get'
+                and len(e.args) == 1 and not e.keywords):
+            return None
+        a = e.args[0]
+        if isinstance(a, ast.Name):
+            key = a.id
+        elif isinstance(a, ast.Constant) and isinstance(a.value, str) and a.value.isidentifier():
+            key = a.value
+        else:
+            return None
+        x, depth = e.func.value, 0
+        while True:
+            if isinstance(x, ast.Attribute):
+                x = x.value
+                depth += 1
+            elif isinstance(x, ast.Call) and not x.args and not x.keywords and isinstance(x.func, ast.Attribute):
+                x = x.func
+            else:
+                break
+        if isinstance(x, ast.Name) and depth >= 1:
+            return x.id, key
+        return None
+
+    def find_abstracted(self):
+        """A parameter that the function uses only as the root of such chains is an opaque object (a document, an
+        element tree …): every `root.….get(<name>)` becomes the new parameter `attr_<name>` (the attribute text or
+        None) in the place of `root`; a parameter that only served as `<name>` is dropped.  Recorded in report.json."""
+        self.abstracted = {}       # ast.dump of the chain -> the parameter that replaces it
+        self.abs_report = []
+        self.abs_params = None
+        if self.cls is not None:
+            return
+        fn = self.fn
+        params = [a.arg for a in fn.args.args]
+        chains = [(x, self.opaque_chain(x)) for x in ast.walk(fn)]
+        chains = [(x, c) for x, c in chains if c is not None and c[0] in params]
+        if not chains:
+            return
+        inside = set()             # Name nodes that occur inside a chain
+        for x, _ in chains:
+            inside |= {id(n) for n in ast.walk(x) if isinstance(n, ast.Name)}
+        outside = {n.id for n in ast.walk(fn) if isinstance(n, ast.Name) and id(n) not in inside}
+        stored = {n.id for n in ast.walk(fn) if isinstance(n, ast.Name) and isinstance(n.ctx, (ast.Store, ast.Del))}
+        roots = {c[0] for _, c in chains}
+        roots = {r for r in roots if r not in outside and r not in stored}
+        chains = sorted(((x, c) for x, c in chains if c[0] in roots), key=lambda t: (t[0].lineno, t[0].col_offset))
+        if not chains:
+            return
+        by_root = {}
+        for x, (root, key) in chains:
+            pname = ident('attr_' + key)
+            self.abstracted[ast.dump(x)] = pname
+            if pname not in by_root.setdefault(root, []):
+                by_root[root].append(pname)
+            self.abs_report.append({'expression': ast.unparse(x), 'parameter': pname, 'line': x.lineno})
+        keys = {c[1] for _, c in chains}
+        dropped = [q for q in params if q in keys and q not in outside and q not in stored and q not in roots]
+        new = []
+        for q in params:
+            if q in by_root:
+                new += [n for n in by_root[q] if n not in new]
+            elif q not in dropped:
+                new.append(ident(q))
+        self.abs_params = new
+        for r in self.abs_report:
+            r['replaces_parameters'] = sorted(roots) + dropped
+        self.order = new + [x for x in self.order if x not in new and x not in {ident(q) for q in list(roots) + dropped}]
 
     # ---------- expressions ----------
     def val(self, e):
+        if isinstance(e, ast.Call) and self.abstracted and ast.dump(e) in self.abstracted:
+            return self.abstracted[ast.dump(e)]
         if isinstance(e, ast.Constant):
             v = e.value
             if isinstance(v, bool):
@@ -987,6 +1063,8 @@ class FnTr:
         return lines + self.seq(rest, len(inner) // 2 + 1, final, 'ret')
 
     def params(self):
+        if self.abs_params is not None:
+            return list(self.abs_params)
         ps = [ident(a.arg) for a in self.fn.args.args]
         return ps[1:] if self.is_init else ps
 
@@ -1153,6 +1231,8 @@ FUNCTIONS = [
     ('plot_utils.py', 'unitsToUserUnits'),
     ('plot_utils.py', 'userUnitToUnits'),
     ('plot_utils.py', 'vb_scale'),
+    ('plot_utils.py', 'getLength'),          # the document-attribute lookup becomes the parameter attr_name
+    ('plot_utils.py', 'getLengthInches'),
     (BEZMISC, 'tpoint'),
     (BEZMISC, 'beziersplitatt'),
     ('plot_utils.py', 'subdivideCubicPath'),
@@ -1226,6 +1306,8 @@ def generate(repo, outdir):
         report[name] = {'module': mod, 'status': status, 'deps': deps,
                         'sha256': hashlib.sha256(text.encode()).hexdigest(),
                         'changed': old is not None and old != text}
+        if fn is not None and status == 'ok' and tr.abs_report:
+            report[name]['abstracted'] = tr.abs_report    # opaque-object lookups replaced by parameters
         if os.path.isabs(mod) and mod in srcs:     # a dependency outside the repository: pin what was translated
             report[name]['source_sha256'] = hashlib.sha256(srcs[mod].encode()).hexdigest()
     # ---- classes: one file per class, one definition (or body + wrapper) per method
